@@ -167,8 +167,44 @@ def r3_narrowing(ctx, F):
     ctx.floor("C10.R3", "float->int casts in int/num modules", n_f, 2, inventory=True)
 
 
+# R4 reviewed wide float<->int casts: (function, cast) -> reason
+WIDE_CAST_OK = {
+    ("float::write_scientific", "IntToFloat usize -> f64"): "formatting: 10^(number of digits), a small count",
+    ("float::write_scientific", "FloatToInt f64 -> u64"): "formatting: the mantissa scaled to at most 17 decimal digits "
+                                                          "(< 2^63), printed as digits",
+}
+NARROW_INTS = ("i8", "i16", "i32", "u8", "u16", "u32")
+
+
+def r4_float_int_casts(ctx, F):
+    """`as` casts between floats and integers in the number code are exact by width: an integer is cast to f64 only from
+    a type of at most 32 bits (every such value is representable), and a float is cast to an integer of at most 32 bits
+    so that the round-trip test `i as f64 == f` that follows is itself exact. A cast through i64/u64/usize saturates
+    and rounds (2^63 as i64 as f64 == 2^63), so an "exact" conversion built on it is off by one at the edge."""
+    n = 0
+    for f in F.fns.values():
+        if f.crate != "starlark" or not re.search(r"src/values/types/(int|num|float|bigint)|src/values/num|src/stdlib/", f.span):
+            continue
+        for st in f.stmts:
+            m = re.match(r"cast (FloatToInt|IntToFloat)$", st.kind)
+            if not m or st.bb in f.cleanup or len(st.ops) < 2:
+                continue
+            n += 1
+            src, dst = [x.strip() for x in st.ops[1].split(" -> ")]
+            narrow = (src if m.group(1) == "IntToFloat" else dst) in NARROW_INTS
+            who = short_fn(top_fn(F, f).qpath)
+            key = (who, "%s %s -> %s" % (m.group(1), src, dst))
+            ctx.check(narrow or key in WIDE_CAST_OK, "C10.R4", "float-int-cast:%s:%s" % key,
+                      "exact by width" if narrow else "reviewed: " + WIDE_CAST_OK.get(key, ""),
+                      "`%s` casts %s to %s: the cast saturates / rounds beyond 2^53, so a conversion or comparison built "
+                      "on it is not exact for large operands (e.g. int(float(1 << 63)) off by one)" % (who, src, dst),
+                      fn=f, line=st.line)
+    ctx.floor("C10.R4", "float<->int casts in the number code", n, 9, inventory=True)
+
+
 def run(ctx):
     F = ctx.facts("core")
+    r4_float_int_casts(ctx, F)
     r1_canonical(ctx, F)
     r2_checked(ctx, F)
     r3_narrowing(ctx, F)
